@@ -103,7 +103,7 @@ def run(rep, tier):
         p = wd / ("intvec_%d.ndjson" % i)
         p.write_text("".join(chunk))
         parts.append(p)
-    nrandom = 300 if quick else 12000
+    nrandom = 300 if quick else 8000
     jobs = [("c20", ["com", parts[i], wd / ("com_%d.ndjson" % i), seed(), nrandom // 2, maxnest, 10, 1 + i * 2000000], None)
             for i in range(2)]
     nsem, nvcg, nrnd = (110, 36, 10) if quick else (2000, 500, 300)
